@@ -277,7 +277,7 @@ def check(rep, tier, seed):
                     continue
                 seen_k.add(key)
                 rep.mismatch(key, msg, {"case": c, "idx": ci, "runner": runner, "message": msg})
-    rule = ("object: every sensible constraint configuration x raw amplitude class per entry x mask value per pixel of Admissible.tla's "
+    rule = ("object: every sensible constraint configuration x raw amplitude class per entry x mask value per slice and pixel of Admissible.tla's "
             "object part (exhaustive for 2x1 and 1x2 objects; thorough adds 2x2 simulated and 1x3); probe: every ordered set of 1-2 "
             "distinct family vectors x scale x weight set x mean intensity (exhaustive), 3-4 modes by seeded simulation; distinct by case")
     return rule, False
